@@ -50,6 +50,7 @@ class DateTime(Parseable[datetime]):
 
     def __bytes__(self) -> bytes:
         if self._raw is None:
-            raw_str = self.value.strftime('%d-%b-%Y %X %z')
+            raw_str = self.value.strftime('%d-%b-{0:04d} %X %z') \
+                .format(self.value.year)
             self._raw = bytes(raw_str, 'ascii')
         return BytesFormat(b'"%b"') % (self._raw, )
